@@ -1,6 +1,7 @@
 package main
 
 import (
+	"os/exec"
 	"encoding/json"
 	"flag"
 	"fmt"
@@ -227,7 +228,60 @@ func cmdSelftest(args []string) int {
 
 // runThoroughExtras: the must-fail / must-pass corpus is part of the thorough tier; a mutant
 // that is not caught by the expected obligation is an engine error.
+// runKnownReplays runs the hand-written replays of the property's listed findings against the
+// real code (go test -overlay, nothing written to /repo). A replay of a FIXED finding must pass: if
+// it fails the defect is back, and that is a violation with a real failing input. A replay of a
+// KNOWN finding is expected to fail; if it passes the entry is stale (noted, not alarmed).
+func runKnownReplays(ps *PropSpec, rep *Report) {
+	type rr struct {
+		File     string `json:"file"`
+		Expected string `json:"expected"`
+		Outcome  string `json:"outcome"`
+	}
+	var out []rr
+	kf := loadKnownFindings()
+	for _, spec := range ps.Replays {
+		f := strings.Split(spec, "|")
+		if len(f) != 5 {
+			rep.EngineErrs = append(rep.EngineErrs, "known_replays entry malformed: "+spec)
+			continue
+		}
+		expectFail := false
+		for _, k := range kf {
+			if k.Replay == f[0] && k.Property == ps.ID && k.Status == "known" {
+				expectFail = true
+			}
+		}
+		cmd := exec.Command(filepath.Join(verifRoot, "tools", "run_replay.sh"), f[0], f[1], f[2], f[3], f[4])
+		b, err := cmd.CombinedOutput()
+		failed := err != nil
+		txt := string(b)
+		r := rr{File: f[0]}
+		switch {
+		case strings.Contains(txt, "build failed") || strings.Contains(txt, "setup failed"):
+			r.Expected, r.Outcome = "runs", "did not build"
+			rep.Notes = append(rep.Notes, "replay "+f[0]+" did not build: "+truncate(txt, 300))
+		case expectFail && failed:
+			r.Expected, r.Outcome = "fails (known finding)", "fails: the listed finding reproduces"
+		case expectFail && !failed:
+			r.Expected, r.Outcome = "fails (known finding)", "passes: the listed finding no longer reproduces (stale entry)"
+			rep.Notes = append(rep.Notes, "replay "+f[0]+" of a known finding passes: the entry is stale")
+		case !expectFail && failed:
+			r.Expected, r.Outcome = "passes (fixed finding)", "FAILS: the repaired defect is back"
+			rep.Violations++
+			rep.ViolLines = append(rep.ViolLines, fmt.Sprintf("VIOLATION property=%s replay=%s obligation=replay-of-fixed-finding", ps.ID, filepath.Join(verifRoot, f[0])))
+		default:
+			r.Expected, r.Outcome = "passes (fixed finding)", "passes"
+		}
+		out = append(out, r)
+	}
+	if len(out) > 0 {
+		rep.Extras["known_replays"] = out
+	}
+}
+
 func runThoroughExtras(ps *PropSpec, rep *Report, opts Options) {
+	runKnownReplays(ps, rep)
 	o := opts
 	o.TwoSolvers = false
 	o.TimeoutS = 20
